@@ -242,6 +242,18 @@ func runC12(o *opts) (*summary, error) {
 		}
 	}
 
+	// ... and the earliest inputs once more, thousands of distinct values later (whatever the package remembers of earlier
+	// calls - a memo with a size limit, say - the answer is a function of the argument)
+	for a := 0; a < 256; a += 3 {
+		w.put(bcdDec([]byte{byte(a)}), "again", fmt.Sprintf("again-d%d", a))
+		w.put(bcdDec([]byte{0, byte(a)}), "again", fmt.Sprintf("again-d0,%d", a))
+		w.put(bcdDec([]byte{byte(a), 0x12, 0x34}), "again", fmt.Sprintf("again-d3,%d", a))
+	}
+	for c := '0'; c <= '9'; c++ {
+		w.put(bcdEnc([]byte{byte(c)}), "again", fmt.Sprintf("again-e%c", c))
+		w.put(bcdEnc([]byte{'0', '0', byte(c), '7'}), "again", fmt.Sprintf("again-e4%c", c))
+	}
+
 	// exhaustive 3-byte decode in summarised form
 	if thorough {
 		for a := 0; a < 256; a++ {
